@@ -351,22 +351,22 @@ macro_rules! axle_state_harness {
         }
     };
 }
-//@ob fn="<Axle<N,E> as Updatable<E>>::update" at=src/devices.rs:276 tier=thorough bounded="axle size 0" clause="N=0: update returns Ok, no panic (thorough tier only: CBMC needs about 3 CPU-minutes of symbolic execution for the loops over a zero-length array)"
+//@ob fn="<Axle<N,E> as Updatable<E>>::update" at=src/devices.rs:276 tier=thorough instance="axle size 0" clause="N=0: update returns Ok, no panic (thorough tier only: CBMC needs about 3 CPU-minutes of symbolic execution for the loops over a zero-length array)"
 axle_state_harness!(c08_axle_0, 0, 2);
-//@ob fn="<Axle<N,E> as Updatable<E>>::update" at=src/devices.rs:276 prop=C08,C03 bounded="axle size 1" clause="N=1, both subsets: state present: in0 := (default + s0) / 1f32 @t0; absent: -"
+//@ob fn="<Axle<N,E> as Updatable<E>>::update" at=src/devices.rs:276 prop=C08,C03 instance="axle size 1" clause="N=1, both subsets: state present: in0 := (default + s0) / 1f32 @t0; absent: -"
 axle_state_harness!(c08_axle_1, 1, 3);
-//@ob fn="<Axle<N,E> as Updatable<E>>::update" at=src/devices.rs:276 prop=C08,C03 bounded="axle size 2" clause="N=2, all 4 subsets P of terminals with a state: P empty: nothing written; else EVERY terminal (with or without data) := (fold_{i in P, terminal order} (acc + s_i), acc0 = State::default()) / (|P| as f32) @max_{i in P} t_i"
+//@ob fn="<Axle<N,E> as Updatable<E>>::update" at=src/devices.rs:276 prop=C08,C03 instance="axle size 2" clause="N=2, all 4 subsets P of terminals with a state: P empty: nothing written; else EVERY terminal (with or without data) := (fold_{i in P, terminal order} (acc + s_i), acc0 = State::default()) / (|P| as f32) @max_{i in P} t_i"
 axle_state_harness!(c08_axle_2, 2, 4);
-//@ob fn="<Axle<N,E> as Updatable<E>>::update" at=src/devices.rs:276 prop=C08,C03 bounded="axle size 3" clause="N=3, all 8 subsets P: P empty: nothing written; else every terminal := (((default + s_a) + s_b) + s_c restricted to P in terminal order) / (|P| as f32) @max over P"
+//@ob fn="<Axle<N,E> as Updatable<E>>::update" at=src/devices.rs:276 prop=C08,C03 instance="axle size 3" clause="N=3, all 8 subsets P: P empty: nothing written; else every terminal := (((default + s_a) + s_b) + s_c restricted to P in terminal order) / (|P| as f32) @max over P"
 axle_state_harness!(c08_axle_3, 3, 5);
-//@ob fn="<Axle<N,E> as Updatable<E>>::update" at=src/devices.rs:276 prop=C08,C03 tier=thorough bounded="axle size 4" clause="N=4, all 16 subsets P: same fold tree / (|P| as f32) @max over P written to every terminal; P empty: nothing"
+//@ob fn="<Axle<N,E> as Updatable<E>>::update" at=src/devices.rs:276 prop=C08,C03 tier=thorough instance="axle size 4" clause="N=4, all 16 subsets P: same fold tree / (|P| as f32) @max over P written to every terminal; P empty: nothing"
 axle_state_harness!(c08_axle_4, 4, 6);
-//@ob fn="<Axle<N,E> as Updatable<E>>::update" at=src/devices.rs:276 prop=C08,C03 tier=thorough bounded="axle size 5" clause="N=5, all 32 subsets P: same fold tree / (|P| as f32) @max over P written to every terminal; P empty: nothing"
+//@ob fn="<Axle<N,E> as Updatable<E>>::update" at=src/devices.rs:276 prop=C08,C03 tier=thorough instance="axle size 5" clause="N=5, all 32 subsets P: same fold tree / (|P| as f32) @max over P written to every terminal; P empty: nothing"
 axle_state_harness!(c08_axle_5, 5, 7);
-//@ob fn="<Axle<N,E> as Updatable<E>>::update" at=src/devices.rs:276 prop=C08,C03 tier=thorough bounded="axle size 6" clause="N=6, all 64 subsets P: same fold tree / (|P| as f32) @max over P written to every terminal; P empty: nothing"
+//@ob fn="<Axle<N,E> as Updatable<E>>::update" at=src/devices.rs:276 prop=C08,C03 tier=thorough instance="axle size 6" clause="N=6, all 64 subsets P: same fold tree / (|P| as f32) @max over P written to every terminal; P empty: nothing"
 axle_state_harness!(c08_axle_6, 6, 8);
 
-//@ob fn="<Axle<N,E> as Updatable<E>>::update" at=src/devices.rs:276 prop=C08,C09 bounded="axle size 2" clause="N=2, each terminal connected to an external terminal, all 16 subsets: every own slot := axle tree of the terminal READS (gK = (own + partner)/2 @max | the one present | none); partner slots unchanged"
+//@ob fn="<Axle<N,E> as Updatable<E>>::update" at=src/devices.rs:276 prop=C08,C09 instance="axle size 2" clause="N=2, each terminal connected to an external terminal, all 16 subsets: every own slot := axle tree of the terminal READS (gK = (own + partner)/2 @max | the one present | none); partner slots unchanged"
 stubbed! {
 #[kani::unwind(4)]
 fn c08_axle_2_reads_connected_terminals() {
